@@ -180,7 +180,9 @@ PROPS['C01'] = {
 PROPS['C02'] = {
     'lean_targets': ['EmmetProps.C02'],
     'lean_imports': ['EmmetProps.C02'],
-    'theorems': [thm('EmmetProps.C02_count', 'for EVERY skeleton forest with *N on elements and groups at any depth: exactly N consecutive copies with repeater values 0..N-1 and count N (what $ numbering reads), as long as the repeat guard exceeds the number of copies', partial=True)],
+    'theorems': [thm('EmmetProps.C02_count', 'for EVERY skeleton forest with *N on elements and groups at any depth: exactly N consecutive copies with repeater values 0..N-1 and count N (what $ numbering reads), as long as the repeat guard exceeds the number of copies', partial=True),
+                 thm('EmmetProps.C02_numbering', 'every $-run (any width, @M, @-, @-M, no ^): replaced by the documented number of the nearest repeater, zero-padded; state unchanged'),
+                 thm('EmmetProps.C02_countdown_last', 'counting down, the last copy gets the start value')],
     'domains': ['dom_markup'],
     'rule': 'exhaustive numbering forms ($ widths 1-3 x @M / @- / @-M bases x N up to 5 (quick) / 12 (thorough)) on four carriers (name, attribute value, text, repeated group), plus random abbreviations with nested repeaters and numbering in names / classes / attribute values / text under maxRepeat limits 1,2,3,5,9 and none; expected elements computed from the statement (threaded completion budget); non-trivial = at least two operators; distinct = distinct (abbreviation, config)',
     'explanation': 'The count clause is a theorem for guard > cost; the numbering arithmetic and the maxRepeat pruning are decided by correspondence + oracle (theorem for those clauses is future work).',
@@ -243,11 +245,12 @@ PROPS['C13'] = {
 PROPS['C14'] = {
     'lean_targets': ['EmmetProps.C14'],
     'lean_imports': ['EmmetProps.C14'],
-    'theorems': [thm('EmmetProps.C14_terminates', 'for EVERY snippet table (self-referencing and mutually recursive included), every forest: resolution with nesting counter |table|+1 never runs out — nesting is at most the number of snippets', partial=True)],
+    'theorems': [thm('EmmetProps.C14_terminates', 'for EVERY snippet table (self-referencing and mutually recursive included), every forest: resolution with nesting counter |table|+1 never runs out — nesting is at most the number of snippets', partial=True),
+                 thm('EmmetProps.C14_terminates_model', 'the same on the model of markup/snippets.py (nesting counter |table|+1, structural recursion over the tree): for every option set / merged table and every forest, resolution never exhausts the counter (hypothesis: the abbreviation parser itself does not run out of fuel)')],
     'domains': ['dom_markup'],
     'rule': 'exhaustive: every entry of the live html, xsl and pug snippet tables x both attribute orders: expand(alias) must equal expand(definition); entries whose definition is a single element additionally with added class / id / attribute set / text / *2, chain definitions with added children (alone and inside a larger abbreviation); plus random user tables over 7 names with self-references and cycles; non-trivial = at least two operators; distinct = distinct (abbreviation, config)',
     'explanation': 'Termination is a theorem on an abstract resolver (nesting counter + structural tree recursion); alias = definition and the merge rules are decided exhaustively over the live tables by the oracle on the implementation plus correspondence with the model.',
-    'level_text': 'Lean 4 theorem: snippet resolution terminates for every table with nesting bounded by the table size (abstract resolver; partial: the concrete resolver model still uses one shared fuel). Alias = definition: exhaustive over the built-in tables on the implementation.',
+    'level_text': 'Lean 4 theorems: snippet resolution terminates for every table with nesting bounded by the table size — on an abstract resolver and on the model of markup/snippets.py itself (partial only in that the parser fuel for convert is a hypothesis). Alias = definition and the merge rules: exhaustive over the built-in tables + multi-root user tables on the implementation.',
     'level_note': 'Trusted: Lean kernel + standard axioms; models of snippets.py / attributes.py tied by correspondence.',
     'assumptions': [CORR],
 }
